@@ -101,18 +101,6 @@ def broken_docs():
     return docs
 
 
-def path_defaults_doc():
-    """path parameters are positional: every arrangement of schema defaults over two / three path parameters (a default BEFORE a
-    parameter without one was a SyntaxError before repair b9d7aba: fixed finding path_default_before_required), with and without keyword parameters behind them"""
-    paths = {}
-    S, D = {"type": "string"}, {"type": "string", "default": "dflt"}
-    for i, flags in enumerate([(0, 0), (0, 1), (1, 1), (1, 0), (0, 1, 1), (0, 1, 0), (1, 0, 1)]):
-        seg = "".join("/{p%d}" % j for j in range(len(flags)))
-        ps = [OPS.P("p%d" % j, "path", D if f else S) for j, f in enumerate(flags)]
-        paths[f"/pd{i}{seg}"] = {"get": OPS.op(f"pd{i}_bare", list(ps)), "post": OPS.op(f"pd{i}_kw", ps + [OPS.P("q", "query", S, False), OPS.P("r", "query", S, True)])}
-    return OPS.doc(paths)
-
-
 SIG_HDR = "Require Import OPC.Uni OPC.Signature.\nFrom Coq Require Import NArith List Bool. Import ListNotations. Open Scope N_scope.\n"
 
 
@@ -327,7 +315,8 @@ def run(run, tier, replay=None):
         jobs.append((l, d, "none", None, 0))
     for i, cfg in enumerate(G.RESERVED_CFGS):
         jobs.append((f"reserved{i}", G.reserved_doc(), "none", cfg, 0))
-    jobs.append(("path_defaults", path_defaults_doc(), "none", None, 0))
+    jobs.append(("builtin_names", G.builtin_names_doc(), "none", None, 0))
+    jobs.append(("builtin_names+doca", G.builtin_names_doc(), "none", {"docstrings_on_attributes": True}, 0))
     nh = 24 if tier == "quick" else 300
     for i in range(nh):
         d = hostile_doc(random.Random(rng.randrange(1 << 30)), allow_gap=(i % 6 == 0))
